@@ -307,7 +307,9 @@ func allPathsErr(ss []ast.Stmt) bool {
 }
 
 // accStep translates the statements of a loop body that mention the accumulator `acc` into
-//   if c then none else … some acc'      (an error return ↦ none, `acc += e` ↦ let acc := acc + e)
+//
+//	if c then none else … some acc'      (an error return ↦ none, `acc += e` ↦ let acc := acc + e)
+//
 // statements that do not mention `acc` are not arithmetic on it (look-ups, owner check, valuation) and are dropped: they
 // are the model's lookup / owner / valuation steps, tied by the source skeleton and the correspondence.
 func (t *tr) accStep(body []ast.Stmt, acc string, ind string) string {
@@ -501,81 +503,99 @@ func feeDefs(repo string) string {
 	return sb.String()
 }
 
-func main() {
-	repo := flag.String("repo", "/repo", "repository root")
-	out := flag.String("out", "", "output file (stdout when empty)")
-	flag.Parse()
-	var text string
-	func() {
-		defer func() {
-			if r := recover(); r != nil {
-				if x, ok := r.(xerr); ok {
-					fmt.Fprintln(os.Stderr, "ruextract-arith: ERROR: "+x.msg)
-					os.Exit(1)
-				}
-				panic(r)
+// section runs one translation unit; an error in it is recorded under its name and the unit emits nothing — the other
+// units are unaffected (the theorems over the missing definitions no longer check; the engines report which)
+var sectionErrors []string
+
+func section(name string, f func() string) (out string) {
+	defer func() {
+		if r := recover(); r != nil {
+			if x, ok := r.(xerr); ok {
+				sectionErrors = append(sectionErrors, "SECTION-ERROR "+name+": "+x.msg)
+				out = "-- " + name + ": not translated (" + strings.ReplaceAll(x.msg, "\n", " ") + ")\n\n"
+				return
 			}
-		}()
-		path := filepath.Join(*repo, "validatornode/application/verification/blockchain.go")
-		f, err := parser.ParseFile(fset, path, nil, 0)
-		if err != nil {
-			fail(nil, "parse: %v", err)
+			panic(r)
 		}
-		var blocks, isEmpty *ast.FuncDecl
-		for _, d := range f.Decls {
-			if fd, ok := d.(*ast.FuncDecl); ok && fd.Recv != nil {
-				switch fd.Name.Name {
-				case "Blocks":
-					blocks = fd
-				case "isEmpty":
-					isEmpty = fd
-				}
+	}()
+	return f()
+}
+
+func blocksDef(repo string) string {
+	path := filepath.Join(repo, "validatornode/application/verification/blockchain.go")
+	f, err := parser.ParseFile(fset, path, nil, 0)
+	if err != nil {
+		fail(nil, "parse: %v", err)
+	}
+	var blocks, isEmpty *ast.FuncDecl
+	for _, d := range f.Decls {
+		if fd, ok := d.(*ast.FuncDecl); ok && fd.Recv != nil {
+			switch fd.Name.Name {
+			case "Blocks":
+				blocks = fd
+			case "isEmpty":
+				isEmpty = fd
 			}
 		}
-		if blocks == nil || isEmpty == nil {
-			fail(nil, "Blocks / isEmpty not found")
-		}
-		// isEmpty must be `return len(blockchain.blocks) == 0`
-		okEmpty := false
-		if len(isEmpty.Body.List) == 1 {
-			if r, ok := isEmpty.Body.List[0].(*ast.ReturnStmt); ok && len(r.Results) == 1 {
-				if b, ok := r.Results[0].(*ast.BinaryExpr); ok && b.Op == token.EQL {
-					if c, ok := b.X.(*ast.CallExpr); ok && sel(c.Fun) == "len" && len(c.Args) == 1 && sel(c.Args[0]) == "blockchain.blocks" {
-						if l, ok := b.Y.(*ast.BasicLit); ok && l.Value == "0" {
-							okEmpty = true
-						}
+	}
+	if blocks == nil || isEmpty == nil {
+		fail(nil, "Blocks / isEmpty not found")
+	}
+	// isEmpty must be `return len(blockchain.blocks) == 0`
+	okEmpty := false
+	if len(isEmpty.Body.List) == 1 {
+		if r, ok := isEmpty.Body.List[0].(*ast.ReturnStmt); ok && len(r.Results) == 1 {
+			if b, ok := r.Results[0].(*ast.BinaryExpr); ok && b.Op == token.EQL {
+				if c, ok := b.X.(*ast.CallExpr); ok && sel(c.Fun) == "len" && len(c.Args) == 1 && sel(c.Args[0]) == "blockchain.blocks" {
+					if l, ok := b.Y.(*ast.BasicLit); ok && l.Value == "0" {
+						okEmpty = true
 					}
 				}
 			}
 		}
-		if !okEmpty {
-			fail(isEmpty, "isEmpty is no longer `return len(blockchain.blocks) == 0`")
-		}
-		if blocks.Type.Params.NumFields() != 1 || sel(blocks.Type.Params.List[0].Type) != "uint64" {
-			fail(blocks, "Blocks no longer takes one uint64")
-		}
-		p0 := blocks.Type.Params.List[0].Names[0].Name
-		t := &tr{u64: map[string]bool{p0: true}, calls: map[string]string{}, used: map[string]bool{}}
-		body := t.stmts(blocks.Body.List, "  ")
-		if t.count == "" {
-			fail(blocks, "the blocks count is never bound")
-		}
-		var sb strings.Builder
-		sb.WriteString("-- generated by harness/cmd/ruextract-arith from validatornode/application/verification/blockchain.go; do not edit\n")
-		sb.WriteString("namespace Gen\n\n")
-		sb.WriteString("/-- `(*Blockchain).Blocks`: the bounds of the slice expression it returns (`none` = the empty list literal) -/\n")
-		sb.WriteString("def blocksRange (" + p0)
-		for _, p := range t.params {
-			sb.WriteString(" " + p)
-		}
-		sb.WriteString(" : UInt64) (" + t.count + " : Nat) : Option (UInt64 × UInt64) :=\n")
-		sb.WriteString(body)
-		sb.WriteString("\n")
-		sb.WriteString(feeDefs(*repo))
-		sb.WriteString(guardDefs(*repo))
-		sb.WriteString("end Gen\n")
-		text = sb.String()
-	}()
+	}
+	if !okEmpty {
+		fail(isEmpty, "isEmpty is no longer `return len(blockchain.blocks) == 0`")
+	}
+	if blocks.Type.Params.NumFields() != 1 || sel(blocks.Type.Params.List[0].Type) != "uint64" {
+		fail(blocks, "Blocks no longer takes one uint64")
+	}
+	p0 := blocks.Type.Params.List[0].Names[0].Name
+	t := &tr{u64: map[string]bool{p0: true}, calls: map[string]string{}, used: map[string]bool{}}
+	body := t.stmts(blocks.Body.List, "  ")
+	if t.count == "" {
+		fail(blocks, "the blocks count is never bound")
+	}
+	var sb strings.Builder
+	sb.WriteString("/-- `(*Blockchain).Blocks`: the bounds of the slice expression it returns (`none` = the empty list literal) -/\n")
+	sb.WriteString("def blocksRange (" + p0)
+	for _, p := range t.params {
+		sb.WriteString(" " + p)
+	}
+	sb.WriteString(" : UInt64) (" + t.count + " : Nat) : Option (UInt64 × UInt64) :=\n")
+	sb.WriteString(body)
+	sb.WriteString("\n")
+	return sb.String()
+}
+
+func main() {
+	repo := flag.String("repo", "/repo", "repository root")
+	out := flag.String("out", "", "output file (stdout when empty)")
+	flag.Parse()
+	var sb strings.Builder
+	sb.WriteString("-- generated by harness/cmd/ruextract-arith from validatornode/application/verification/blockchain.go; do not edit\n")
+	sb.WriteString("namespace Gen\n\n")
+	sb.WriteString(section("blocks", func() string { return blocksDef(*repo) }))
+	sb.WriteString(section("fee", func() string { return feeDefs(*repo) }))
+	for i := range guardSpecs {
+		sp := &guardSpecs[i]
+		sb.WriteString(section("guards:"+sp.fn, func() string { return guardDef(*repo, sp) }))
+	}
+	sb.WriteString("end Gen\n")
+	text := sb.String()
+	for _, e := range sectionErrors {
+		fmt.Fprintln(os.Stderr, "ruextract-arith: "+e)
+	}
 	if *out == "" {
 		fmt.Print(text)
 		return
